@@ -53,7 +53,136 @@ func waitBackend(get func() *scriptedBackend, done chan error) (*scriptedBackend
 	}
 }
 
+// translateMapChange: one long-lived Scheme whose application changes the membership map between two sessions (a node
+// replaced, a replica handed to another party, parties re-numbered). Every session is translated with the map in force
+// when it starts: Init gets the sorted parties of the agreed nodes under the *current* map, and an incoming message is
+// attributed to its sender's *current* party.
+func translateMapChange(s *out.Sink) {
+	type change struct {
+		name          string
+		before, after map[uint16]uint16
+		second        []uint16 // agreed nodes of the second session
+	}
+	changes := []change{
+		{"node 3 replaced by node 4 for party 3", map[uint16]uint16{1: 1, 2: 2, 3: 3}, map[uint16]uint16{1: 1, 2: 2, 4: 3}, []uint16{1, 2, 4}},
+		{"replica 4 handed from party 3 to party 2", map[uint16]uint16{1: 1, 2: 2, 3: 3, 4: 3}, map[uint16]uint16{1: 1, 2: 2, 3: 3, 4: 2}, []uint16{1, 4}},
+		{"parties re-numbered", map[uint16]uint16{1: 1, 2: 2, 3: 3}, map[uint16]uint16{1: 1, 2: 300, 3: 20}, []uint16{1, 2, 3}},
+		{"party 0 appears", map[uint16]uint16{1: 1, 2: 2, 3: 3}, map[uint16]uint16{1: 5, 2: 0, 3: 3}, []uint16{1, 2, 3}},
+	}
+	for _, ch := range changes {
+		for _, second := range []string{"sign", "keygen"} {
+			current := map[tss.UniversalID]tss.PartyID{}
+			for n, p := range ch.before {
+				current[tss.UniversalID(n)] = tss.PartyID(p)
+			}
+			var agreed []uint16
+			syncF := func(members []uint16, _ func([]byte), _ func([]byte, uint16)) tss.Synchronizer {
+				return fixedSyncFactory(agreed)(members, nil, nil)
+			}
+			var first []uint16
+			for n := range ch.before {
+				first = append(first, n)
+			}
+			sort.Slice(first, func(i, j int) bool { return first[i] < first[j] })
+			// distinct parties only in the first session
+			seen := map[uint16]bool{}
+			var firstAgreed []uint16
+			for _, n := range first {
+				if !seen[ch.before[n]] {
+					seen[ch.before[n]] = true
+					firstAgreed = append(firstAgreed, n)
+				}
+			}
+			agreed = firstAgreed
+			rg := newSchemeRig(1, len(agreed)-1, current, syncF, false)
+			rg.scheme.SetStoredData([]byte("stored"))
+			desc := fmt.Sprintf("%s; first session: sign among nodes %v; second: %s among nodes %v", ch.name, firstAgreed, second, ch.second)
+			run := func(session string) (*scriptedBackend, chan error, context.CancelFunc, bool) {
+				ctx, cancel := context.WithCancel(context.Background())
+				done := make(chan error, 1)
+				get := func() *scriptedBackend { rg.mu.Lock(); defer rg.mu.Unlock(); return rg.kg }
+				if session == "sign" {
+					get = func() *scriptedBackend { rg.mu.Lock(); defer rg.mu.Unlock(); return rg.signer }
+					go func() { _, err := rg.scheme.Sign(ctx, sha([]byte("d")), "map-change-"+session+second); done <- err }()
+				} else {
+					go func() { _, err := rg.scheme.KeyGen(ctx, len(agreed), len(agreed)-1); done <- err }()
+				}
+				b, _, started := waitBackend(get, done)
+				return b, done, cancel, started
+			}
+			b, done, cancel, started := run("sign")
+			if !started {
+				cancel()
+				continue
+			}
+			b.release <- nil
+			select {
+			case <-done:
+			case <-time.After(5 * time.Second):
+			}
+			cancel()
+			// the application changes the map (in place: Membership() returns the map in force)
+			for n := range current {
+				delete(current, n)
+			}
+			for n, p := range ch.after {
+				current[tss.UniversalID(n)] = tss.PartyID(p)
+			}
+			agreed = ch.second
+			rg.scheme.Threshold = len(agreed) - 1
+			rg.mu.Lock()
+			rg.kg, rg.signer = nil, nil
+			rg.mu.Unlock()
+			b, done, cancel, started = run(second)
+			s.N++
+			s.Count("map-change/" + second)
+			s.Distinct["map change "+desc] = struct{}{}
+			var want []uint16
+			for _, n := range agreed {
+				want = append(want, ch.after[n])
+			}
+			sort.Slice(want, func(i, j int) bool { return want[i] < want[j] })
+			if !started {
+				s.Violate("C06", fmt.Sprintf("after the membership map changed (%s) a %s session among nodes %v does not start", ch.name, second, agreed), desc)
+				cancel()
+				continue
+			}
+			for _, e := range b.takeEvents() {
+				if e.kind == "init" && out.U16s(e.parties) != out.U16s(want) {
+					s.Violate("C06", fmt.Sprintf("after the membership map changed (%s) the backend of a %s session among nodes %v was initialised with parties %s; under the map in force they are %s", ch.name, second, agreed, out.U16s(e.parties), out.U16s(want)), desc)
+				}
+			}
+			topic := sha([]byte("DKG"))
+			if second == "sign" {
+				topic = sha([]byte("map-change-" + second + second))
+			}
+			for _, n := range agreed {
+				if n == 1 {
+					continue
+				}
+				rg.scheme.HandleMessage(&tss.IncMessage{Data: frame(3, 0, []byte{byte(n)}), Source: n, MsgType: uint8(tss.MsgTypeMPC), Topic: topic})
+				from := "none"
+				for _, e := range b.takeEvents() {
+					if e.kind == "onmsg" {
+						from = fmt.Sprint(e.from)
+					}
+				}
+				if from != fmt.Sprint(ch.after[n]) {
+					s.Violate("C06", fmt.Sprintf("after the membership map changed (%s) a message of node %d (now party %d) reached the backend attributed to %s", ch.name, n, ch.after[n], from), desc)
+				}
+			}
+			b.release <- nil
+			select {
+			case <-done:
+			case <-time.After(5 * time.Second):
+			}
+			cancel()
+		}
+	}
+}
+
 func runTranslate(r *prng.R, s *out.Sink, tier string) {
+	translateMapChange(s)
 	maps := 60
 	if tier == "thorough" {
 		maps = 600
